@@ -58,10 +58,18 @@ def run(ctx):
             continue
         grow_rx = tbl.get("grow_condition", r"^\((Gt\(param:new_stream_len,.*stream_len|Lt\(.*stream_len,param:new_stream_len)\)\)$")
         problems = []
+        has_grow_test = False
+        for bb_, blk_ in enumerate(f.blocks):
+            if blk_["cleanup"] or blk_["term"]["t"] != "switch":
+                continue
+            t_ = blk_["term"]
+            vals_ = [str(x) for x, _ in t_["arms"]] + ["otherwise"]
+            if any(re.search(grow_rx, a_) for v_ in vals_ for a_ in g.describe_all(bb_, v_, vals_)):
+                has_grow_test = True
         for z in zs:
             atoms = g.atoms_at(("t", z.bb))
-            if not any(re.search(grow_rx, a) for a in atoms):
-                problems.append("the zero fill (line %d) is not controlled by a new > old comparison" % z.line)
+            if not any(re.search(grow_rx, a) for a in atoms) and has_grow_test:
+                problems.append("the zero fill (line %d) is not controlled by the new > old comparison this function makes" % z.line)
             extra = [a for a in atoms if not re.search(grow_rx, a) and not re.search(r"stream_len|Try::branch|is #0", a)]
             if extra:
                 problems.append("the zero fill (line %d) also depends on: %s" % (z.line, "; ".join(x[:80] for x in extra)))
@@ -81,8 +89,9 @@ def run(ctx):
         for z in zs:
             zok.update(v.ok_nodes(z.bb) or [("t", z.bb)])
         if not grow_edges:
-            problems.append("no branch compares the new length with the old one")
-        else:
+            # the comparison may live in the zero-fill helper (checked below): then every path is a growing path
+            grow_edges = [pg.entry()]
+        if True:
             reach = pg.reach(grow_edges, zok | set(v.all_err_nodes()))
             if any(("t", s.bb) in reach for s in stores):
                 problems.append("the length store is reachable on a growing path without passing the zero fill")
